@@ -153,23 +153,38 @@ fn emit_server_events(tr: &mut Tracer, io: &mut ServerIo) {
     }
 }
 
-/// every builder call of the Connector, from a configuration record (password hash: can be set, never unset)
-fn configure(c: Connector, cfg: &Value) -> Connector {
+/// one builder call of the Connector, by name, with the value found in a configuration record
+fn builder_call(c: Connector, cfg: &Value, call: &str) -> Connector {
     let domain = cps_to_string(cfg.get("domain"));
     let user = cps_to_string(cfg.get("user"));
     let password = cps_to_string(cfg.get("password"));
-    let name = if cfg.get("name").is_some() { cps_to_string(cfg.get("name")) } else { "rdp-rs".to_string() };
-    let mut c = c.screen(gu(cfg, "w", 800) as u16, gu(cfg, "h", 600) as u16);
+    match call {
+        "screen" => c.screen(gu(cfg, "w", 800) as u16, gu(cfg, "h", 600) as u16),
+        "credentials" => c.credentials(domain, user, password),
+        "admin" => c.set_restricted_admin_mode(gb(cfg, "admin")),
+        "auto" => c.auto_logon(gb(cfg, "auto")),
+        "blank" => c.blank_creds(gb(cfg, "blank")),
+        "check" => c.check_certificate(gb(cfg, "check")),
+        "layout" => c.layout(layout_of(gs(cfg, "layout", "us"))),
+        "name" => c.name(if cfg.get("name").is_some() { cps_to_string(cfg.get("name")) } else { "rdp-rs".to_string() }),
+        "nla" => c.use_nla(gb(cfg, "nla")),
+        // password hash: can be set, never unset
+        "hash" => if gb(cfg, "hash") { c.set_password_hash(crate::nlapeer::nt_hash(&password)) } else { c },
+        _ => c,
+    }
+}
+
+/// every builder call of the Connector, from a configuration record - or only the calls listed in `only` (a Connector
+/// being reconfigured between two connections: the calls not made keep what the first configuration set)
+fn configure(mut c: Connector, cfg: &Value, only: Option<&Vec<Value>>) -> Connector {
+    if let Some(list) = only {
+        for call in list { c = builder_call(c, cfg, call.as_str().unwrap_or("")); }
+        return c;
+    }
     // the builder methods commute: the configuration must not depend on the order of the calls
-    if gb(cfg, "auto_first") {
-        c = c.auto_logon(gb(cfg, "auto")).blank_creds(gb(cfg, "blank")).set_restricted_admin_mode(gb(cfg, "admin")).credentials(domain.clone(), user.clone(), password.clone());
-    } else {
-        c = c.credentials(domain.clone(), user.clone(), password.clone()).set_restricted_admin_mode(gb(cfg, "admin")).auto_logon(gb(cfg, "auto")).blank_creds(gb(cfg, "blank"));
-    }
-    let mut c = c.check_certificate(gb(cfg, "check")).layout(layout_of(gs(cfg, "layout", "us"))).name(name).use_nla(gb(cfg, "nla"));
-    if gb(cfg, "hash") {
-        c = c.set_password_hash(crate::nlapeer::nt_hash(&password));
-    }
+    let order: [&str; 10] = if gb(cfg, "auto_first") { ["screen", "auto", "blank", "admin", "credentials", "check", "layout", "name", "nla", "hash"] }
+                            else { ["screen", "credentials", "admin", "auto", "blank", "check", "layout", "name", "nla", "hash"] };
+    for call in order.iter() { c = builder_call(c, cfg, call); }
     c
 }
 
@@ -231,7 +246,7 @@ fn run_plan(plan: &Value, tr: &mut Tracer) {
             sock = Some(csock2);
         }
     } else {
-        let mut c = configure(Connector::new(), &cfg);
+        let mut c = configure(Connector::new(), &cfg, None);
         let out = guarded(|| c.connect(csock));
         match out {
             Outcome::Done(Ok(cl)) => { res = "ok".to_string(); ek = String::new(); client = Some(cl); }
@@ -258,7 +273,7 @@ fn run_plan(plan: &Value, tr: &mut Tracer) {
             server = thread::Builder::new().stack_size(4 << 20).spawn(move || serve_connect(ServerIo::new(ssock2), srv3)).unwrap();
             tr.event(json!({"ev": "reset", "run": format!("{}#2", plan.get("id").and_then(|x| x.as_str()).unwrap_or("")), "cfg": cfg2, "srv": srv}));
             alloc_base = crate::outcome::alloc_window_start();
-            c = configure(c, &cfg2);
+            c = configure(c, &cfg2, then.get("apply").and_then(|x| x.as_array()));
             let out = guarded(|| c.connect(csock2));
             match out {
                 Outcome::Done(Ok(cl)) => { res = "ok".to_string(); ek = String::new(); client = Some(cl); }
